@@ -190,7 +190,12 @@ def alt_partitions(mod, tier):
         return mod.ALT_PARTITIONS(tier)
     if hasattr(mod, "OPT_PARTITIONS"):
         return mod.OPT_PARTITIONS(tier)
-    return mod.partitions(tier)
+    if tier == "quick" or getattr(mod, "OPT_QUICK_ALL", False):
+        return mod.partitions(tier)
+    # thorough tier of the expensive modules: the stratified half that the -OO pass does not take
+    taken = {jdump(p) for p in opt_partitions(mod, tier)}
+    rest = [p for p in mod.partitions(tier) if jdump(p) not in taken]
+    return rest or mod.partitions(tier)
 
 
 def _alt_worker(args):
